@@ -44,7 +44,7 @@ def run_sessions(run, sessions, rd_kind="s", need_rd=True, need_lean=True, need_
     for si, ans in enumerate(answers):
         p = G.parse_exp_answer(ans)
         comp = comp_of(sessions[si][0])
-        r = {"raw": ans, "results": p[0] if p else None, "outs": p[1] if p else None, "plain": [], "rd": {}, "lean": {}, "model": {}, "comp": comp}
+        r = {"raw": ans, "results": p[0] if p else None, "outs": p[1] if p else None, "plain": [], "rd": {}, "lean": {}, "model": {}, "rdq": {}, "comp": comp}
         if p:
             for oi, o in enumerate(p[1]):
                 if o == "MISSING" or o.startswith("PART:"):
@@ -59,16 +59,58 @@ def run_sessions(run, sessions, rd_kind="s", need_rd=True, need_lean=True, need_
     lean = G.run_driver(["cdns " + l.split()[2] for l in rd_lines]) if (need_lean and run.driver_ok) else [None] * len(rd_lines)
     # the MODEL of the struct readers/writers (Model.Schema over the block and preamble schemas) on the same bytes
     model = G.run_driver(["blk " + l.split()[2] for l in rd_lines]) if (need_model and run.driver_ok) else [None] * len(rd_lines)
-    for (si, oi), a, l, m in zip(idx, rd, lean, model):
+    # the MODEL of the read side of a block (Model.ReadBlock: CdnsBlockRead::read after the raw read, read_generic_qr/aec/mm)
+    rdq = G.run_driver(["rdq " + l.split()[2] for l in rd_lines]) if (need_model and need_rd and run.driver_ok) else [None] * len(rd_lines)
+    for (si, oi), a, l, m, q in zip(idx, rd, lean, model, rdq):
         res[si]["rd"][oi] = a
         res[si]["lean"][oi] = l
         res[si]["model"][oi] = m
+        res[si]["rdq"][oi] = q
     return res
+
+
+def blocks_part(dump):
+    """the part of a reader dump after the preamble: 'B{..} B{..} EOF' / 'E:dec' ..."""
+    if dump is None:
+        return None
+    body = dump[2:] if dump[:2] in ("I ", "M ", "S ") else dump
+    if body.startswith("B{"):
+        return body
+    i = body.find(" B{")
+    if i >= 0:
+        return body[i + 1:]
+    return body.rsplit(" ", 1)[-1]
+
+
+def same_records(model_ans, lib_dump):
+    """Model.ReadBlock (rdq) against the library reader's dump.  Within ONE block the library interleaves decoding and the
+    post-read checks while the model decodes the block first, so when both end with an exception in the same block the class
+    of the exception may differ; everything before it must be equal."""
+    if model_ans is None or lib_dump is None or not model_ans.startswith("M"):
+        return True
+    m, l = blocks_part(model_ans), blocks_part(lib_dump)
+    if m == l:
+        return True
+    mt, lt = m.rsplit(" ", 1), l.rsplit(" ", 1)
+    return mt[-1].startswith("E:") and lt[-1].startswith("E:") and mt[:-1] == lt[:-1]
+
+
+def judge_readmodel(run, session, r, limit=5):
+    for oi, q in r["rdq"].items():
+        a = r["rd"].get(oi)
+        if q is None or a is None:
+            continue
+        run.count("read-model: records of an output resolved by Model.ReadBlock")
+        if not same_records(q, a) and len(run.model_fail) < limit:
+            run.model_fail.append((session[0][:4000], {"correspondence": "Model.ReadBlock (ofVal + records: CdnsBlockRead::read after the raw read, "
+                                                      "read_generic_qr/aec/mm) vs the records the library reader returns", "output": oi,
+                                                      "model": (blocks_part(q) or "")[:1500], "library": (blocks_part(a) or "")[:1500]}))
 
 
 def judge_model(run, session, r, limit=5):
     """correspondence of the schema model with the library: the model reader (readVal over filePreamble / block) resolves to the
     dump the library reader gives, and the model writer reproduces the library's bytes for the value read"""
+    judge_readmodel(run, session, r, limit)
     for oi, m in r["model"].items():
         a = r["rd"].get(oi)
         if m is None:
